@@ -628,12 +628,18 @@ pub fn crash_suites(thorough: bool) -> Vec<Suite> {
     v.push(crash_suite("crash-small-v3", small_disk(3, 5), crash_tables(3), crash_core_ops(), d(4, 6)));
     v.push(crash_suite("crash-ttl-reuse-v3", disk(3, true, true), crash_tables(3), crash_ttl_reuse_ops(), d(7, 8)));
     v.push(crash_suite("crash-ttl-reuse-v2", disk(2, true, true), crash_tables(2), crash_ttl_reuse_ops(), d(6, 8)));
+    // multi-block generations that recovery itself has to retire (stale duplicate / expired winner)
+    v.push(crash_suite("crash-ttl-big-v3", disk(3, true, true), std_tables(), crash_ttl_big_ops(), d(4, 6)));
     // a device that fills up: the out-of-space path retires old extents before the pending write fits
     v.push(crash_suite("crash-full4-v3", small_disk(3, 4), std_tables(), crash_full_ops(), d(5, 7)));
     let mut u = disk(3, true, false);
     u.uring = true;
     v.push(crash_suite("crash-uring-v3", u, crash_tables(3), crash_core_ops(), d(3, 4)));
     v
+}
+
+pub fn crash_ttl_big_ops() -> Vec<Op> {
+    vec![ins(0, V_BIG2), ins_ttl(0, V_BIG3, 1, 0), ins(0, V_X), Op::Flush, Op::Advance(3)]
 }
 
 /// Overwrite chains on a device the newest generation only fits on after a retirement.
